@@ -28,15 +28,27 @@ var (
 	vAssets []app.VerifAsset
 )
 
+var builtVodRoot string
+
 func vodRoot() string {
 	if d := os.Getenv("VERIF_VODROOT"); d != "" {
 		return d
 	}
-	repo := os.Getenv("VERIF_REPO")
-	if repo == "" {
-		repo = "/repo"
+	if builtVodRoot == "" {
+		r, err := buildVodRoot()
+		if err != nil {
+			fmt.Fprintln(os.Stderr, "harness: buildVodRoot:", err)
+			os.Exit(3)
+		}
+		builtVodRoot = r
 	}
-	return repo + "/cmd/livesim2/app/testdata/assets"
+	return builtVodRoot
+}
+
+func cleanupVodRoot() {
+	if builtVodRoot != "" {
+		os.RemoveAll(builtVodRoot)
+	}
 }
 
 func getServer() *app.Server {
